@@ -124,8 +124,34 @@ def stepSess {α} (o : NumOps α) (sh : α → String) (allow : Kind → Bool) (
 structure St where
   q : Sess Rat
   f : Sess Float
+  a : Store Float × ARef
 
 def showFloat (x : Float) : String := "b" ++ toString x.toBits.toNat
+
+/-- `A` lines: array identity (Model/TimePar.lean `Store`/`ARef`/`AOp`), IEEE doubles.
+    Output: `ok|<vId> <valuesId>|<contents of v>|<contents of values>` -/
+def showA (x : Store Float × ARef) : String :=
+  let vals := match x.2.valuesId with | none => "~" | some j => showVal showFloat (.array (readBuf x.1 j))
+  s!"ok|{x.2.vId} {match x.2.valuesId with | none => "~" | some j => toString j}|{showVal showFloat (.array (readBuf x.1 x.2.vId))}|{vals}"
+
+def parseFloats? (s : String) : Option (List Float) :=
+  if s.startsWith "a:" then (parseRatList? (s.drop 2).toString).map (fun l => l.map floatOps.ofRat) else none
+
+def stepA (x : Store Float × ARef) (ws : List String) : Option (Store Float × ARef) :=
+  let conv (k : Kind) (f : Rat) : Float → Float := convElem floatOps k (floatOps.ofRat f)
+  match ws with
+  | ["new", l] => (parseFloats? l).map newArr
+  | ["sync", v, vals] =>
+      -- re-synchronise the CONTENTS of the current object's arrays to the observed ones (not an API call; identities are kept)
+      (parseFloats? v).bind fun v => (parseFloats? vals).map fun vals =>
+        let s1 := x.1.set x.2.vId v
+        (match x.2.valuesId with | some j => if j = x.2.vId then s1 else s1.set j vals | none => s1, x.2)
+  | ["upd", k, f] => (parseKind? k).bind fun k => (parseRat? f).map fun f => AOp.step x.1 x.2 (.upd (conv k f))
+  | ["setv", k, f, l] => (parseKind? k).bind fun k => (parseRat? f).bind fun f => (parseFloats? l).map fun l => AOp.step x.1 x.2 (.setV l (conv k f))
+  | ["conv", k, f] => (parseKind? k).bind fun k => (parseRat? f).map fun f => AOp.step x.1 x.2 (.conv (conv k f))
+  | ["arith", k, f, c] => (parseKind? k).bind fun k => (parseRat? f).bind fun f => (parseRat? c).map fun c =>
+      AOp.step x.1 x.2 (.arith (fun t => floatOps.mul t (floatOps.ofRat c)) (conv k f))
+  | _ => none
 
 def stepLine (st : St) (line : String) : St × String :=
   match words line with
@@ -142,6 +168,9 @@ def stepLine (st : St) (line : String) : St × String :=
   | ["Q", "norm", u] => (st, match canonUnit (parseUnit u) with | .ok r => "ok " ++ showUnit r | .error e => showErr e)
   | "Q" :: ws => let (q, o) := stepSess ratOps showRat (fun k => k = .dur ∨ k = .rate) st.q ws; ({ st with q := q }, o)
   | "F" :: ws => let (f, o) := stepSess floatOps showFloat (fun _ => true) st.f ws; ({ st with f := f }, o)
+  | "A" :: ws => match stepA st.a ws with
+      | some a => ({ st with a := a }, showA a)
+      | none => (st, "bad-op")
   | _ => (st, "bad-op")
 
-def main : IO Unit := mainLoop stepLine { q := ⟨none, none⟩, f := ⟨none, none⟩ }
+def main : IO Unit := mainLoop stepLine { q := ⟨none, none⟩, f := ⟨none, none⟩, a := ([], { vId := 0, valuesId := none }) }
